@@ -23,6 +23,7 @@ import (
 	"github.com/cenkalti/backoff/v4"
 	"github.com/go-faster/errors"
 
+	tdlog "github.com/gotd/log"
 	"github.com/gotd/td/bin"
 	"github.com/gotd/td/crypto"
 	"github.com/gotd/td/mt"
@@ -64,9 +65,9 @@ func (o *outObj) Decode(b *bin.Buffer) error {
 type pipe struct {
 	failWrites *atomic.Bool // half-dead link: writes fail, reads still block (shared by all links of the server)
 	toClient   chan []byte
-	toServer chan []byte
-	closed   chan struct{}
-	once     sync.Once
+	toServer   chan []byte
+	closed     chan struct{}
+	once       sync.Once
 }
 
 func newPipe(fail *atomic.Bool) *pipe {
@@ -125,6 +126,57 @@ type server struct {
 	held     []heldReq
 	pipes    []*pipe
 	failing  atomic.Bool
+
+	rekillArmed, rekillDone atomic.Bool
+	dialsAtKill             int
+}
+
+// hookLogger turns one log record of the library into a scheduling point (no hook in gotd/td needed):
+// invokeConn logs wakeMsg in the invoker's goroutine right after it noticed a replaced connection and
+// before it picks the connection for its next attempt.
+type hookLogger struct{ s *server }
+
+const wakeMsg = "Primary connection replaced, retrying request"
+
+func (h hookLogger) Enabled(context.Context, tdlog.Level) bool { return true }
+func (h hookLogger) Log(ctx context.Context, lvl tdlog.Level, msg string, attrs ...tdlog.Attr) {
+	if os.Getenv("CLIENTDRV_DEBUG") != "" {
+		fmt.Fprintln(os.Stderr, "log:", msg)
+	}
+	if msg == wakeMsg && h.s.rekillArmed.CompareAndSwap(true, false) {
+		h.s.rekill()
+	}
+}
+
+// rekill: the replacement connection dies too; returns when the client has replaced it again.
+func (s *server) rekill() {
+	wait := func(n int) bool {
+		deadline := time.Now().Add(5 * time.Second)
+		for time.Now().Before(deadline) {
+			s.mu.Lock()
+			d := s.dials
+			s.mu.Unlock()
+			if d >= n {
+				return true
+			}
+			time.Sleep(time.Millisecond)
+		}
+		return false
+	}
+	s.mu.Lock()
+	n := s.dialsAtKill
+	s.mu.Unlock()
+	if !wait(n + 1) { // the replacement has dialled
+		return
+	}
+	s.mu.Lock()
+	p := s.pipes[len(s.pipes)-1]
+	s.mu.Unlock()
+	p.Close()
+	// the next dial happens only after the reconnection loop replaced the primary connection once more
+	if wait(n + 2) {
+		s.rekillDone.Store(true)
+	}
 }
 
 type heldReq struct {
@@ -174,7 +226,11 @@ func result(reqMsgID int64, body bin.Encoder) []byte {
 
 type resObj struct{ tag int }
 
-func (r *resObj) Encode(b *bin.Buffer) error { b.PutID(resTypeID); b.PutInt32(int32(r.tag)); return nil }
+func (r *resObj) Encode(b *bin.Buffer) error {
+	b.PutID(resTypeID)
+	b.PutInt32(int32(r.tag))
+	return nil
+}
 
 func findID(body []byte, id uint32) int {
 	var pat [4]byte
@@ -199,6 +255,12 @@ func (s *server) apply(p *pipe, sess, msgID int64, k int, pol string) {
 		// "sendfail" reaching the server means the write did not fail in this run: the request is simply answered
 		s.send(p, sess, result(msgID, &resObj{tag: 10 * k}), true)
 	case "kill":
+		p.Close()
+	case "kill_rekill":
+		s.mu.Lock()
+		s.dialsAtKill = s.dials
+		s.mu.Unlock()
+		s.rekillArmed.Store(true)
 		p.Close()
 	case "ack_kill":
 		ack()
@@ -338,6 +400,7 @@ func runCase(cs tr.M, seed int64) tr.M {
 		Resolver: resolver{srv}, SessionStorage: st, NoUpdates: true, DC: 2,
 		ReconnectionBackoff: func() backoff.BackOff { return backoff.NewConstantBackOff(20 * time.Millisecond) },
 		RetryInterval:       time.Hour, MaxRetries: 5, DialTimeout: 5 * time.Second,
+		Logger: hookLogger{srv},
 	})
 	results := map[int]string{}
 	tags := map[int]int{}
@@ -415,7 +478,7 @@ func runCase(cs tr.M, seed int64) tr.M {
 				})
 			}
 			invoke(ctx, k, &wg)
-			if p := srv.policy[k]; p == "kill" || p == "ack_kill" || p == "result_kill" || p == "sendfail" {
+			if p := srv.policy[k]; p == "kill" || p == "ack_kill" || p == "result_kill" || p == "sendfail" || p == "kill_rekill" {
 				// the next request is issued only after the client has replaced the connection
 				deadline := time.Now().Add(3 * time.Second)
 				for time.Now().Before(deadline) {
@@ -471,7 +534,14 @@ func runCase(cs tr.M, seed int64) tr.M {
 		}
 		out = append(out, m)
 	}
-	return tr.M{"reqs": out, "stuck": stuck}
+	res := tr.M{"reqs": out, "stuck": stuck}
+	for _, k := range ks {
+		if srv.policy[k] == "kill_rekill" && srv.receipts[k] > 0 {
+			// the schedule was realised only if the second replacement was observed at the wake-up point
+			res["rekill_done"] = srv.rekillDone.Load()
+		}
+	}
+	return res
 }
 
 func main() {
